@@ -252,6 +252,9 @@ func (e *Engine) index() {
 						e.ctorTypes[types.TypeString(i.AssertedType, nil)] = i.AssertedType
 					}
 				}
+				if _, isDbg := in.(*ssa.DebugRef); isDbg {
+					continue
+				}
 				var rands [12]*ssa.Value
 				for _, r := range in.Operands(rands[:0]) {
 					if r == nil || *r == nil {
